@@ -1464,7 +1464,7 @@ func c16GenFaults(rt *rapid.T) *c16Case {
 			cs.Files = append(cs.Files, c16File{Name: name, Role: "nosite", Src: c16Src(i, []string{"other(0)"}, pad)})
 		}
 	}
-	if rapid.IntRange(0, 7).Draw(rt, "longName") == 0 {
+	if rapid.IntRange(0, 3).Draw(rt, "longName") == 0 {
 		// A base name so long that no temporary sibling ".<name>.gopatch-<n>"
 		// can be created (255-byte limit). The run is judged only if the
 		// fault-free run copes with it; whatever way the file is then written,
